@@ -411,6 +411,8 @@ func (r *RemoteList) CopyBlockedRemotes() []netip.AddrPort {
 func (r *RemoteList) RefreshFromHandshake(vpnAddrs []netip.Addr) {
 	r.Lock()
 	r.badRemotes = nil
+	// The deduplicated list was collected without the blocked remotes (and for the old vpnAddrs), collect it again
+	r.shouldRebuild = true
 	r.vpnAddrs = make([]netip.Addr, len(vpnAddrs))
 	copy(r.vpnAddrs, vpnAddrs)
 	r.Unlock()
@@ -420,6 +422,7 @@ func (r *RemoteList) RefreshFromHandshake(vpnAddrs []netip.Addr) {
 func (r *RemoteList) ResetBlockedRemotes() {
 	r.Lock()
 	r.badRemotes = nil
+	r.shouldRebuild = true
 	r.Unlock()
 }
 
